@@ -10,7 +10,8 @@ Inductive op :=
 | OSend (e tag : nat)        (* sm.send(<event e>, tag=tag) *)
 | OActivate                  (* sm.activate_initial_state() *)
 | OConstruct                 (* sm = M(model, ...): a new machine (new engine, queue, lock) over the same model *)
-| OWrite (s : nat).          (* sm.current_state_value = <value of state s> *)
+| OWrite (s : nat)           (* sm.current_state_value = <value of state s> *)
+| OAdd (ps : list nat).      (* sm.add_listener(<providers ps>) *)
 
 (* a returned value is kept with its two parts (before results, on results): Python sees [res_val] *)
 Inductive outcome := RVal (v : pyres) | RExn (x : exn) | RFuel.
@@ -43,7 +44,8 @@ Definition mkobs (rm : rmachine) (r : outcome) (c : cfg) : obs :=
 
 Definition new_engine (c : cfg) : cfg := set_depth (set_locked (set_queue c []) false) 0.
 
-Definition run_op (beh : behaviour) (rm : rmachine) (fuel : nat) (o : op) (c : cfg) : cfg * obs :=
+Definition run_op (beh : behaviour) (md : mdecl) (fuel : nat) (o : op) (c : cfg) : mdecl * cfg * obs :=
+  let rm := resolve md in
   let c0 := clear_log c in
   let r := match o with
            | OSend e tag => send beh rm fuel {| td_ev := Some e; td_tag := tag |} c0
@@ -51,24 +53,27 @@ Definition run_op (beh : behaviour) (rm : rmachine) (fuel : nat) (o : op) (c : c
            | OConstruct =>                       (* __init__ discards what the loop returns *)
                do (c1, _v) <- construct beh rm fuel (new_engine c0); Ok c1 no_res
            | OWrite s => Ok (set_field c0 (Some s)) no_res
+           | OAdd _ => Ok c0 no_res
            end in
+  let md1 := match o with OAdd ps => add_round md ps | _ => md end in
+  let rm1 := resolve md1 in
   match r with
-  | Ok c1 v => (c1, mkobs rm (RVal v) c1)
-  | Exn c1 x => (c1, mkobs rm (RExn x) c1)
-  | Fuel => (c0, mkobs rm RFuel c0)
+  | Ok c1 v => (md1, c1, mkobs rm1 (RVal v) c1)
+  | Exn c1 x => (md1, c1, mkobs rm1 (RExn x) c1)
+  | Fuel => (md1, c0, mkobs rm1 RFuel c0)
   end.
 
 Definition failed (o : obs) : bool := match o_out o with RVal _ => false | _ => true end.
 
 (* a history stops at a constructor that raises (there is no machine object to go on with) *)
-Fixpoint run_ops (beh : behaviour) (rm : rmachine) (fuel : nat) (ops : list op) (c : cfg) : list obs :=
+Fixpoint run_ops (beh : behaviour) (md : mdecl) (fuel : nat) (ops : list op) (c : cfg) : list obs :=
   match ops with
   | [] => []
   | o :: r =>
-      let '(c1, ob) := run_op beh rm fuel o c in
+      let '(md1, c1, ob) := run_op beh md fuel o c in
       match o with
-      | OConstruct => if failed ob then [ob] else ob :: run_ops beh rm fuel r c1
-      | _ => ob :: run_ops beh rm fuel r c1
+      | OConstruct => if failed ob then [ob] else ob :: run_ops beh md1 fuel r c1
+      | _ => ob :: run_ops beh md1 fuel r c1
       end
   end.
 
@@ -88,7 +93,7 @@ Record scenario := {
   sc_md : mdecl; sc_tbl : btable; sc_field0 : option nat; sc_ops : list op; sc_fuel : nat }.
 
 Definition run_scenario (s : scenario) : list obs :=
-  run_ops (beh_of (sc_tbl s)) (resolve (sc_md s)) (sc_fuel s) (sc_ops s) (init_cfg (sc_field0 s)).
+  run_ops (beh_of (sc_tbl s)) (sc_md s) (sc_fuel s) (sc_ops s) (init_cfg (sc_field0 s)).
 
 (* the calling styles: every one puts the same trigger and runs the same loop *)
 Inductive style := ByName | ByAttribute | ByEventsItem | ByAllowedEventsItem | ByBoundTrigger.
